@@ -30,8 +30,8 @@ changed; the victim batch still deserialises to its original value.
 
 Finding keys (b): ``write-exceeds-allocation:<path>:<cause>`` with path = nondict|dict (which branch of
 ``allocate_and_write``) and cause = ``schema-message`` (the schema message alone is larger than the fixed
-allowance), ``nested-dictionary`` (dictionary messages of a nested dictionary column are not counted) or
-``other``.
+allowance), ``nested-dictionary`` (dictionary messages of a nested dictionary column are not counted),
+``other`` (nondict) or ``payload`` (dict branch, which writes no schema message).
 """
 
 from __future__ import annotations
@@ -377,9 +377,11 @@ def run_batch_case(ctx: Ctx, case: dict[str, Any]) -> None:
     schema_msg = batch.schema.serialize().size
     top_dict = any(pa.types.is_dictionary(f.type) for f in batch.schema)
     path = "dict" if top_dict else "nondict"
-    if schema_msg + 8 > 4096:
+    if top_dict:
+        cause = "payload"  # the dict branch writes no schema message: dictionaries + record batch only
+    elif schema_msg + 8 > 4096:
         cause = "schema-message"
-    elif not top_dict and any(_has_nested_dictionary(f.type) for f in batch.schema):
+    elif any(_has_nested_dictionary(f.type) for f in batch.schema):
         cause = "nested-dictionary"
     else:
         cause = "other"
@@ -388,11 +390,15 @@ def run_batch_case(ctx: Ctx, case: dict[str, Any]) -> None:
     M.SHM_MIN_BATCH_BYTES = 0
     seg = M.ShmSegment.create(H + 4 * (stream_size + 16384) + 65536)
     try:
+        dry = seg.allocate_and_write(batch)  # learn the length the real code requests for this batch
+        if dry is None:  # a very generous estimate: retry once on a much larger segment
+            seg.close()
+            seg.unlink()
+            seg = M.ShmSegment.create(H + 8 * (stream_size + 16384) + (32 << 20))
+            dry = seg.allocate_and_write(batch)
         total = seg.size
         buf = seg.buf
-        buf[H:total] = bytes([PATTERN]) * (total - H)
         A = seg.allocator
-        dry = seg.allocate_and_write(batch)  # learn the length the real code requests for this batch
         if dry is None:
             ctx.fail("dry-run-did-not-fit", f"{case}: allocate_and_write returned None on an empty {total - H}-byte segment", case)
             ctx.case(outcome="dry-none")
